@@ -12,7 +12,17 @@ U == UNION {StrsOfLen(n) : n \in 0..MaxLen}
 \* a fixed enumeration order of the universe
 RECURSIVE SetToSeq(_)
 SetToSeq(S) == IF S = {} THEN <<>> ELSE LET x == CHOOSE y \in S : TRUE IN <<x>> \o SetToSeq(S \ {x})
-USeq == SetToSeq(U)
+\* ... by index arithmetic (no recursion over the universe): the strings of length n occupy the indices Off(n) + 1 .. Off(n + 1)
+NA == Len(Alphabet)
+RECURSIVE PowA(_)
+PowA(n) == IF n = 0 THEN 1 ELSE NA * PowA(n - 1)
+RECURSIVE Off(_)
+Off(n) == IF n = 0 THEN 0 ELSE Off(n - 1) + PowA(n - 1)
+StrAt(k) == LET n == CHOOSE m \in 0..MaxLen : Off(m) < k /\ k <= Off(m + 1)
+                r == k - Off(n) - 1
+            IN [j \in 1..n |-> Alphabet[((r \div PowA(n - j)) % NA) + 1]]
+USeq == [k \in 1..Off(MaxLen + 1) |-> StrAt(k)]
+UniverseIsComplete == {USeq[k] : k \in 1..Len(USeq)} = U /\ Len(USeq) = Cardinality(U)
 Pairs(a) == [j \in 1..Len(USeq) |-> [a |-> a, b |-> USeq[j], less |-> Less(a, USeq[j]), eq |-> CIEqual(a, USeq[j])]]
 \* extensions with every case variant (with and without the leading dot)
 ToggleCase(c) == IF c >= 97 /\ c <= 122 THEN c - 32 ELSE IF c >= 65 /\ c <= 90 THEN c + 32 ELSE c
